@@ -148,3 +148,213 @@ Definition cdrop_cr (l : list N) : list N :=
   | c :: r => if c =? 13 then rev r else l
   | [] => l
   end.
+
+From DV Require Import Proofs.Utf8Props Theory.Utf8Spec.
+
+(* bytes of a character: the character itself when ASCII, otherwise all >= 128 *)
+Lemma encode_char_ascii_or_high c : scalar c ->
+  (c < 128 /\ encode_char c = [c]) \/ (128 <= c /\ Forall (fun b => 128 <= b) (encode_char c)).
+Proof.
+  intros Hs. apply scalar_range in Hs. unfold encode_char.
+  destruct (c <? 128) eqn:E1; [left; split; [lia|reflexivity]|right; split; [lia|]].
+  destruct (c <? 2048) eqn:E2; [repeat constructor; lia|].
+  destruct (c <? 65536) eqn:E3; repeat constructor; lia.
+Qed.
+
+Lemma split_lf_app_no10 w : Forall (fun b => b <> 10) w -> forall rest cur,
+  split_lf (w ++ rest) cur = split_lf rest (rev w ++ cur).
+Proof.
+  induction w as [|b w IH]; intros Hw rest cur; [reflexivity|].
+  inversion Hw as [|? ? Hb Hr]; subst. cbn [app split_lf rev]. apply N.eqb_neq in Hb. rewrite Hb.
+  rewrite (IH Hr). rewrite <- app_assoc. reflexivity.
+Qed.
+Lemma split_nl_all_app_no10 w : Forall (fun b => b <> 10) w -> forall rest cur,
+  split_nl_all (w ++ rest) cur = split_nl_all rest (rev w ++ cur).
+Proof.
+  induction w as [|b w IH]; intros Hw rest cur; [reflexivity|].
+  inversion Hw as [|? ? Hb Hr]; subst. cbn [app split_nl_all rev]. apply N.eqb_neq in Hb. rewrite Hb.
+  rewrite (IH Hr). rewrite <- app_assoc. reflexivity.
+Qed.
+
+Lemma encode_char_no10 c : scalar c -> c <> 10 -> Forall (fun b => b <> 10) (encode_char c).
+Proof.
+  intros Hs Hc. destruct (encode_char_ascii_or_high c Hs) as [[_ ->]|[_ H]]; [repeat constructor; exact Hc|].
+  eapply Forall_impl; [|exact H]. cbn beta. intros b Hb. lia.
+Qed.
+
+Lemma encode_utf8_nil_inv l : encode_utf8 l = [] -> l = [].
+Proof.
+  destruct l as [|c r]; [reflexivity|]. cbn [encode_utf8 flat_map]. intros H. apply app_eq_nil in H as [H _].
+  exfalso. exact (encode_char_nonempty c H).
+Qed.
+
+Lemma split_lf_utf8 : forall cs curb curc, Forall scalar cs -> rev curb = encode_utf8 (rev curc) ->
+  split_lf (encode_utf8 cs) curb = map encode_utf8 (csplit_lf cs curc).
+Proof.
+  induction cs as [|c r IH]; intros curb curc Hs Hinv.
+  - cbn [encode_utf8 flat_map split_lf csplit_lf]. destruct curc as [|x xs].
+    + cbn [rev encode_utf8 flat_map] in Hinv. destruct curb as [|y ys]; [reflexivity|].
+      exfalso. apply (f_equal (@length N)) in Hinv. rewrite rev_length in Hinv. cbn in Hinv. lia.
+    + destruct curb as [|y ys].
+      * exfalso. change (rev (@nil N)) with (@nil N) in Hinv. symmetry in Hinv. apply encode_utf8_nil_inv in Hinv.
+        apply (f_equal (@length N)) in Hinv. rewrite rev_length in Hinv. cbn in Hinv. lia.
+      * cbn [map]. rewrite Hinv. reflexivity.
+  - inversion Hs as [|? ? Hc Hr]; subst. cbn [encode_utf8 flat_map csplit_lf]. fold (encode_utf8 r).
+    destruct (c =? 10) eqn:E10.
+    + apply N.eqb_eq in E10. subst c. change (encode_char 10) with [10]. cbn [app split_lf]. change (10 =? 10) with true. cbn iota.
+      cbn [map]. rewrite Hinv. f_equal. apply (IH [] [] Hr). reflexivity.
+    + apply N.eqb_neq in E10. rewrite (split_lf_app_no10 _ (encode_char_no10 c Hc E10)).
+      apply (IH _ (c :: curc) Hr). rewrite rev_app_distr, rev_involutive, Hinv. cbn [rev].
+      rewrite encode_utf8_app. cbn [encode_utf8 flat_map]. rewrite app_nil_r. reflexivity.
+Qed.
+
+Lemma split_nl_all_utf8 : forall cs curb curc, Forall scalar cs -> rev curb = encode_utf8 (rev curc) ->
+  split_nl_all (encode_utf8 cs) curb = map encode_utf8 (csplit_nl_all cs curc).
+Proof.
+  induction cs as [|c r IH]; intros curb curc Hs Hinv.
+  - cbn [encode_utf8 flat_map split_nl_all csplit_nl_all map]. rewrite Hinv. reflexivity.
+  - inversion Hs as [|? ? Hc Hr]; subst. cbn [encode_utf8 flat_map csplit_nl_all]. fold (encode_utf8 r).
+    destruct (c =? 10) eqn:E10.
+    + apply N.eqb_eq in E10. subst c. change (encode_char 10) with [10]. cbn [app split_nl_all]. change (10 =? 10) with true. cbn iota.
+      cbn [map]. rewrite Hinv. f_equal. apply (IH [] [] Hr). reflexivity.
+    + apply N.eqb_neq in E10. rewrite (split_nl_all_app_no10 _ (encode_char_no10 c Hc E10)).
+      apply (IH _ (c :: curc) Hr). rewrite rev_app_distr, rev_involutive, Hinv. cbn [rev].
+      rewrite encode_utf8_app. cbn [encode_utf8 flat_map]. rewrite app_nil_r. reflexivity.
+Qed.
+
+Lemma csplit_lf_scalar : forall cs cur, Forall scalar cs -> Forall scalar cur -> Forall (Forall scalar) (csplit_lf cs cur).
+Proof.
+  induction cs as [|c r IH]; intros cur Hs Hc; cbn [csplit_lf].
+  - destruct cur; [constructor|]. constructor; [|constructor]. apply Forall_rev. exact Hc.
+  - inversion Hs; subst. destruct (c =? 10).
+    + constructor; [apply Forall_rev; exact Hc|]. apply IH; [assumption|constructor].
+    + apply IH; [assumption|]. constructor; assumption.
+Qed.
+Lemma csplit_nl_all_scalar : forall cs cur, Forall scalar cs -> Forall scalar cur -> Forall (Forall scalar) (csplit_nl_all cs cur).
+Proof.
+  induction cs as [|c r IH]; intros cur Hs Hc; cbn [csplit_nl_all].
+  - constructor; [|constructor]. apply Forall_rev. exact Hc.
+  - inversion Hs; subst. destruct (c =? 10).
+    + constructor; [apply Forall_rev; exact Hc|]. apply IH; [assumption|constructor].
+    + apply IH; [assumption|]. constructor; assumption.
+Qed.
+
+Lemma drop_cr_utf8 l : Forall scalar l -> drop_cr (encode_utf8 l) = encode_utf8 (cdrop_cr l).
+Proof.
+  intros Hs. unfold drop_cr, cdrop_cr. destruct (rev l) as [|c r] eqn:El.
+  - apply (f_equal (@rev N)) in El. rewrite rev_involutive in El. subst l. reflexivity.
+  - assert (E : l = rev r ++ [c]) by (rewrite <- (rev_involutive l), El; reflexivity).
+    assert (Hc : scalar c) by (rewrite Forall_forall in Hs; apply Hs; rewrite E; apply in_or_app; right; left; reflexivity).
+    rewrite E at 1. rewrite encode_utf8_app, rev_app_distr. cbn [encode_utf8 flat_map]. rewrite app_nil_r.
+    destruct (encode_char_ascii_or_high c Hc) as [[Hlt Ec]|[Hge Hall]].
+    + rewrite Ec. cbn [rev app]. destruct (c =? 13) eqn:E13; [rewrite rev_involutive; reflexivity|].
+      rewrite E, encode_utf8_app. cbn [encode_utf8 flat_map]. rewrite app_nil_r, Ec. reflexivity.
+    + assert (E13 : (c =? 13) = false) by lia. rewrite E13.
+      destruct (rev (encode_char c)) as [|b br] eqn:Er.
+      { exfalso. apply (f_equal (@rev N)) in Er. rewrite rev_involutive in Er. exact (encode_char_nonempty c Er). }
+      assert (Hb : 128 <= b).
+      { rewrite Forall_forall in Hall. apply Hall. apply in_rev. rewrite Er. left. reflexivity. }
+      cbn [app]. assert ((b =? 13) = false) as -> by lia.
+      rewrite E, encode_utf8_app. cbn [encode_utf8 flat_map]. rewrite app_nil_r. reflexivity.
+Qed.
+
+Lemma cdrop_cr_scalar l : Forall scalar l -> Forall scalar (cdrop_cr l).
+Proof.
+  intros Hs. unfold cdrop_cr. destruct (rev l) as [|c r] eqn:El; [exact Hs|]. destruct (c =? 13); [|exact Hs].
+  apply Forall_rev. assert (H : Forall scalar (rev l)) by (apply Forall_rev; exact Hs). rewrite El in H. inversion H; assumption.
+Qed.
+
+(* BufRead::lines of UTF-8 text: the lines are the UTF-8 encodings of the character-level lines *)
+Definition cbuf_lines (cs : list N) : list (list N) := map cdrop_cr (csplit_lf cs []).
+
+Theorem buf_lines_utf8 cs : Forall scalar cs ->
+  buf_lines (encode_utf8 cs) = map encode_utf8 (cbuf_lines cs) /\ Forall (Forall scalar) (cbuf_lines cs).
+Proof.
+  intros Hs. unfold buf_lines, cbuf_lines. rewrite (split_lf_utf8 cs [] [] Hs eq_refl).
+  pose proof (csplit_lf_scalar cs [] Hs ltac:(constructor)) as Hl. split.
+  - rewrite !map_map. apply map_ext_in. intros l Hin. rewrite Forall_forall in Hl. apply drop_cr_utf8. apply Hl. exact Hin.
+  - rewrite Forall_forall in *. intros l Hin. apply in_map_iff in Hin as (l0 & <- & Hin0). apply cdrop_cr_scalar. apply Hl. exact Hin0.
+Qed.
+
+(* the pattern list of UTF-8 arguments consists of non-empty UTF-8 strings *)
+Definition ccli_patterns (pfile pstr : option (list N)) : list (list N) :=
+  (match pfile with Some f => filter nonempty (cbuf_lines f) | None => [] end)
+  ++ (match pstr with Some s => filter nonempty (csplit_nl_all s []) | None => [] end).
+
+Lemma nonempty_encode l : nonempty (encode_utf8 l) = nonempty l.
+Proof.
+  destruct l as [|c r]; [reflexivity|]. cbn [encode_utf8 flat_map nonempty].
+  destruct (encode_char c) eqn:E; [exfalso; exact (encode_char_nonempty c E)|reflexivity].
+Qed.
+Lemma filter_nonempty_encode ls : filter nonempty (map encode_utf8 ls) = map encode_utf8 (filter nonempty ls).
+Proof.
+  induction ls as [|l r IH]; [reflexivity|]. cbn [map filter]. rewrite nonempty_encode. destruct (nonempty l); cbn [map]; rewrite IH; reflexivity.
+Qed.
+
+Theorem cli_patterns_utf8 (pfile pstr : option (list N)) :
+  (forall f, pfile = Some f -> Forall scalar f) -> (forall s, pstr = Some s -> Forall scalar s) ->
+  cli_patterns (option_map encode_utf8 pfile) (option_map encode_utf8 pstr) = map encode_utf8 (ccli_patterns pfile pstr)
+  /\ Forall (fun p => p <> [] /\ Forall scalar p) (ccli_patterns pfile pstr).
+Proof.
+  intros Hf Hp. unfold cli_patterns, ccli_patterns. split.
+  - rewrite map_app. f_equal.
+    + destruct pfile as [f|]; [|reflexivity]. cbn [option_map]. destruct (buf_lines_utf8 f (Hf f eq_refl)) as [-> _].
+      apply filter_nonempty_encode.
+    + destruct pstr as [s|]; [|reflexivity]. cbn [option_map]. rewrite (split_nl_all_utf8 s [] [] (Hp s eq_refl) eq_refl).
+      apply filter_nonempty_encode.
+  - apply Forall_app. split.
+    + destruct pfile as [f|]; [|constructor]. destruct (buf_lines_utf8 f (Hf f eq_refl)) as [_ Hl].
+      rewrite Forall_forall in *. intros l Hin. apply filter_In in Hin as [Hin Hne]. split; [destruct l; [discriminate|discriminate]|apply Hl; exact Hin].
+    + destruct pstr as [s|]; [|constructor]. pose proof (csplit_nl_all_scalar s [] (Hp s eq_refl) ltac:(constructor)) as Hl.
+      rewrite Forall_forall in *. intros l Hin. apply filter_In in Hin as [Hin Hne]. split; [destruct l; [discriminate|discriminate]|apply Hl; exact Hin].
+Qed.
+
+Lemma encode_utf8_bytes cs : Forall scalar cs -> Forall (fun b => b < 256) (encode_utf8 cs).
+Proof.
+  intros Hcs. apply Forall_forall. intros b Hb. unfold encode_utf8 in Hb. apply in_flat_map in Hb as (c & Hc & Hb).
+  rewrite Forall_forall in Hcs. specialize (Hcs c Hc). apply scalar_range in Hcs. unfold encode_char in Hb.
+  destruct (c <? 128) eqn:E1; [destruct Hb as [<-|[]]; lia|].
+  destruct (c <? 2048) eqn:E2; [destruct Hb as [<-|[<-|[]]]; lia|].
+  destruct (c <? 65536) eqn:E3; [destruct Hb as [<-|[<-|[<-|[]]]]; lia|].
+  destruct Hb as [<-|[<-|[<-|[<-|[]]]]]; lia.
+Qed.
+
+Lemma bpvs_upvs cpats : bpvs unit (upvs cpats) = upvs (map encode_utf8 cpats).
+Proof. unfold bpvs, upvs. rewrite !map_map. reflexivity. Qed.
+
+Lemma utf8_lines_ok cpats color cs :
+  Forall (fun p => p <> [] /\ Forall scalar p) cpats -> Forall scalar cs ->
+  Forall (line_ok (upvs (map encode_utf8 cpats)) color) (buf_lines (encode_utf8 cs)).
+Proof.
+  intros Hp Hs. destruct (buf_lines_utf8 cs Hs) as [-> Hl]. rewrite Forall_forall in *. intros l Hin.
+  apply in_map_iff in Hin as (cl & <- & Hcl). specialize (Hl cl Hcl). split; [apply encode_utf8_bytes; exact Hl|].
+  intros _. unfold occs_on_boundaries. rewrite <- bpvs_upvs.
+  apply (utf8_occurrences_on_boundaries (upvs cpats) cl).
+  - intros p v Hpv. unfold upvs in Hpv. apply in_map_iff in Hpv as (q & E & Hq). inversion E as [[Eq Ev]]. rewrite <- Eq. exact (proj1 (Hp q Hq)).
+  - intros p v Hpv. unfold upvs in Hpv. apply in_map_iff in Hpv as (q & E & Hq). inversion E as [[Eq Ev]]. rewrite <- Eq. exact (proj2 (Hp q Hq)).
+  - exact Hl.
+Qed.
+
+(* THE WHOLE PROGRAM ON UTF-8 ARGUMENTS AND INPUTS: pattern file, pattern string, standard input and
+   file contents are the UTF-8 encodings of arbitrary texts (file names: any bytes). *)
+Theorem cli_main_utf8_lemma (fl : cli_flags) (pfile pstr : option (list N)) (stdin : list N) (files : list (list N * list N)) :
+  (forall f, pfile = Some f -> Forall scalar f) -> (forall s, pstr = Some s -> Forall scalar s) ->
+  Forall scalar stdin -> Forall (fun f => Forall scalar (snd f)) files ->
+  let pats := map encode_utf8 (ccli_patterns pfile pstr) in
+  let bfiles := map (fun f => (fst f, encode_utf8 (snd f))) files in
+  let run := cli_main fl (option_map encode_utf8 pfile) (option_map encode_utf8 pstr) (encode_utf8 stdin) bfiles in
+  4 * plain_len pats <= U32_MAX - 1 ->
+  match spec_build_error pats with
+  | Some _ => run = Ok ([], 1)
+  | None => run = Ok (cli_expected (upvs pats) fl (encode_utf8 stdin) bfiles, 0) \/ run = Ok ([], 1)
+  end.
+Proof.
+  intros Hf Hp Hin Hfs pats bfiles run Hsz.
+  destruct (cli_patterns_utf8 pfile pstr Hf Hp) as [Epats Hpats].
+  pose proof (cli_main_lemma fl (option_map encode_utf8 pfile) (option_map encode_utf8 pstr) (encode_utf8 stdin) bfiles) as M.
+  cbv zeta in M. rewrite Epats in M. fold pats in M. fold run in M. apply M; [|exact Hsz|].
+  - intros p Hp'. unfold pats in Hp'. apply in_map_iff in Hp' as (q & <- & Hq). apply encode_utf8_bytes.
+    rewrite Forall_forall in Hpats. exact (proj2 (Hpats q Hq)).
+  - split; [apply utf8_lines_ok; assumption|]. unfold bfiles. rewrite Forall_forall in *. intros f Hfin.
+    apply in_map_iff in Hfin as (f0 & <- & Hf0). cbn [snd]. apply utf8_lines_ok; [apply Forall_forall; exact Hpats|exact (Hfs f0 Hf0)].
+Qed.
